@@ -243,7 +243,12 @@ impl Multicast {
 
 impl From<Response> for mac::Response {
     fn from(m: Response) -> Self {
-        mac::Response::Multicast(m)
+        match m {
+            // Nothing happened (e.g. a frame on a multicast port that failed authentication):
+            // this must look like any other ignored frame to the front-ends.
+            Response::NoUpdate => mac::Response::NoUpdate,
+            m => mac::Response::Multicast(m),
+        }
     }
 }
 
